@@ -89,6 +89,28 @@ inductive Stage where
   | inverseTransform
 deriving DecidableEq, Repr
 
+/-- the guard around the callback block of the batch loop -/
+inductive CbGuard where
+  /-- `if self.callbacks_:` (`callbacks_` is None or a non-empty list): no callbacks, no block -/
+  | truthy
+  /-- no guard: `for cb in self.callbacks_` with `callbacks_ = None` raises TypeError -/
+  | unguarded
+deriving DecidableEq, Repr
+
+inductive ExcKind where
+  | runtimeError | valueError | typeError
+deriving DecidableEq, Repr
+
+/-- what happens to the value a callback returns, before it is accumulated into the stop flag -/
+inductive ResultCheck where
+  /-- no check: the truth value of whatever was returned is used -/
+  | coerce
+  /-- `if result and not isinstance(result, bool): raise <e>`: falsy values of any type count as False -/
+  | truthyNonBool (e : ExcKind)
+  /-- `if not isinstance(result, bool): raise <e>` -/
+  | nonBool (e : ExcKind)
+deriving DecidableEq, Repr
+
 structure Cfg where
   /-- `(self.epochs, self.max_iter)`: the configuration is rejected with ValueError -/
   rejects : Int → Int → Bool
